@@ -169,6 +169,24 @@ func c03Run(c *Ctx, cs c03Case) {
 		g    *Graph
 		tt   bool
 	}{{"truthtable", tt, true}, {"notarget", noTarget, false}}
+	if cs.K >= 1 && cs.Extras == 0 && !cs.EmptyList && cs.Name == "P" {
+		// size thresholds: the same truth table replicated 40 times (>= 40 results per failing validation and level)
+		big := &Graph{}
+		for r := 0; r < 40; r++ {
+			for _, n := range tt.Nodes {
+				if strings.HasSuffix(n.ID, "other") {
+					continue
+				}
+				cp := big.Add(fmt.Sprintf("%s-r%d", n.ID, r), n.Types...)
+				cp.Props = n.Props
+			}
+		}
+		graphs = append(graphs, struct {
+			name string
+			g    *Graph
+			tt   bool
+		}{"truthtable-x40", big, true})
+	}
 
 	for _, gr := range graphs {
 		data := gr.g.FlatJSONLD()
@@ -177,6 +195,13 @@ func c03Run(c *Ctx, cs c03Case) {
 		anyViolation := false
 		nonViolation := false
 		if gr.tt {
+			reps := []string{""}
+			if gr.name == "truthtable-x40" {
+				reps = nil
+				for r := 0; r < 40; r++ {
+					reps = append(reps, fmt.Sprintf("-r%d", r))
+				}
+			}
 			for i := 0; i < cs.K; i++ {
 				for m := 0; m < 1<<cs.K; m++ {
 					if m&(1<<i) != 0 {
@@ -184,7 +209,9 @@ func c03Run(c *Ctx, cs c03Case) {
 					}
 					for li := range c03Levels {
 						if cs.Levels[i]&(1<<li) != 0 {
-							exp[c03Sev[li]+"|"+fmt.Sprintf("v%d", i+1)+"|"+nid(m)] = true
+							for _, rep := range reps {
+								exp[c03Sev[li]+"|"+fmt.Sprintf("v%d", i+1)+"|"+nid(m)+rep] = true
+							}
 							if li == 0 {
 								anyViolation = true
 							} else {
